@@ -657,7 +657,11 @@ class SQLParser(Parser):
 
     @_('id EQUALS expr')
     def update_parameter(self, p):
-        return {p.id: p.expr}
+        name = p.id
+        if len(name) > 1 and name[0] == '`' and name[-1] == '`':
+            # the column name is what is written between the back-quotes
+            name = name[1:-1]
+        return {name: p.expr}
 
     # EXPRESSIONS
 
